@@ -127,6 +127,8 @@ def run(ctx, rep):
     rule_unwrap(ctx, rep)
     # premise of every verdict on "sole owner": the count equals the number of owning handles on every path of every
     # operation, unwinding included (the balance rules of C01/C04)
+    # (global: the histories quantified over contain operations of every handle kind, and a count that no longer equals the
+    # number of owners - wherever it was broken - falsifies the sole-owner verdict these functions act on)
     balance.rule_bal(ctx, rep)
     balance.rule_unw(ctx, rep)
     from . import c03
